@@ -47,6 +47,24 @@ pub struct NodeCfg {
     pub scoring: bool,
     pub fanout_ttl_s: u64,
     pub opportunistic_ticks: u64,
+    /// topic-specific mesh parameter sets (`ConfigBuilder::mesh_*_for_topic`); topics without an
+    /// entry use the default set above. Only valid sets are generated (see C34's known finding).
+    #[serde(default)]
+    pub topic_mesh: Vec<TopicMesh>,
+    /// `ConfigBuilder::validate_messages()`: the application (= the harness) reports the validation
+    /// result before a received message is forwarded
+    #[serde(default)]
+    pub validate_messages: bool,
+}
+
+/// Mesh parameters of one topic (index into the check's topic pool).
+#[derive(Clone, Debug, Serialize, Deserialize, PartialEq)]
+pub struct TopicMesh {
+    pub topic: u8,
+    pub outbound_min: usize,
+    pub n_low: usize,
+    pub n: usize,
+    pub n_high: usize,
 }
 
 impl NodeCfg {
@@ -63,7 +81,24 @@ impl NodeCfg {
             scoring: false,
             fanout_ttl_s: 60,
             opportunistic_ticks: 60,
+            topic_mesh: vec![],
+            validate_messages: false,
         }
+    }
+
+    /// the mesh parameter set in force for topic `t` (last entry wins, as `set_topic_config` replaces)
+    pub fn mesh_for(&self, t: u8) -> TopicMesh {
+        self.topic_mesh.iter().rev().find(|m| m.topic == t).cloned().unwrap_or(TopicMesh {
+            topic: t,
+            outbound_min: self.outbound_min,
+            n_low: self.n_low,
+            n: self.n,
+            n_high: self.n_high,
+        })
+    }
+
+    pub fn has_topic_mesh(&self, t: u8) -> bool {
+        self.topic_mesh.iter().any(|m| m.topic == t)
     }
 
     pub fn build(&self) -> gs::Config {
@@ -85,6 +120,16 @@ impl NodeCfg {
             .publish_queue_duration(Duration::from_secs(24 * 3600))
             .forward_queue_duration(Duration::from_secs(24 * 3600))
             .support_floodsub();
+        for m in &self.topic_mesh {
+            // the four public per-topic setters (TopicMeshConfig itself is not exported)
+            b.mesh_outbound_min_for_topic(m.outbound_min, topic_hash(m.topic))
+                .mesh_n_low_for_topic(m.n_low, topic_hash(m.topic))
+                .mesh_n_for_topic(m.n, topic_hash(m.topic))
+                .mesh_n_high_for_topic(m.n_high, topic_hash(m.topic));
+        }
+        if self.validate_messages {
+            b.validate_messages();
+        }
         b.build().expect("valid gossipsub config")
     }
 }
